@@ -40,7 +40,7 @@ def journal_specs(maxlen, role_both=True):
                 elif c == "S":
                     sends.append(RS("HB"))
                 else:
-                    sends.append(dict(RS("APP", "11=h%d" % i), faildrain=True))
+                    sends.append(RS("APP", "11=BADENC"))   # number consumed, nothing journaled: a hole
             last = 1 + L      # Logon reply took number 1
             for awaiting in (False, True):
                 pre = [{"t": "attach"}, RF("LOGON", 0)] + sends + ([RF("APP", 2)] if awaiting else [])
